@@ -640,8 +640,8 @@ package scipipe
 //@ ghost func beforeLastSlash(x string) string
 
 // The documented modifiers (docs/writing_workflows.md): basename, dirname, %SUFFIX, s/SEARCH/REPLACE/
-//@ ghost func isSubstMod(m string) bool
-//@ ghost func isTrimMod(m string) bool
+//@ ghost func isSubstMod(m string) bool interp `expr: fullMatch(m, "s/[^/%\n]+/[^/%\n]*/")`
+//@ ghost func isTrimMod(m string) bool interp `expr: fullMatch(m, "%[^\n]*") && !matches(m, "s\\/([^\\/]+)\\/([^\\/]*)\\/")`
 //@ ghost func substA(m string) string
 //@ ghost func substB(m string) string
 //@ axiom isSubstMod.def: forall m string :: isSubstMod(m) <==> fullMatch(m, "s/[^/%\n]+/[^/%\n]*/")
